@@ -6,6 +6,7 @@ performs on a generated program is converted to the Lean loop IR and replayed th
 interprets the real IR before/after the whole pass and compares the traces of side-effecting ops.
 """
 import contextlib
+import os
 import random
 
 import compat  # noqa: F401
@@ -13,6 +14,8 @@ import snaxrun
 from framework import Prop, CaseTimeout
 
 FIXED_F03 = True  # the committed model is the code WITH fixes/F03-changeforstep-ceil.diff
+# proposed fixes that are NOT in /repo: set C17_FIXES=FC17a,FC17b to check a tree that has them applied
+PROPOSED = {x.strip() for x in os.environ.get("C17_FIXES", "").split(",") if x.strip()}
 
 RULES = {"ChangeForStep": "changeStep", "MergeForLoops": "merge", "LoopHoistPureOperations": "hoist",
          "MoveMemrefDims": "moveDim", "dce": "dce"}
@@ -200,7 +203,11 @@ class Conv:
                 raise Unsupported(f"op {op.name}")
             dst = self.names[op.results[0]]
             args = [self.arg(o) for o in op.operands]
-            if isinstance(op, arith.MuliOp):
+            if isinstance(op, arith.ConstantOp):
+                if not isinstance(op.value, IntegerAttr):
+                    raise Unsupported("non-integer constant")
+                kind = ["lit", op.value.value.data]
+            elif isinstance(op, arith.MuliOp):
                 kind = ["mul"]
             elif isinstance(op, arith.AddiOp):
                 kind = ["add"]
@@ -470,6 +477,7 @@ def step_flags(name, mod_before, op, mod_after):
     if name == "MoveMemrefDims" and mod_after is not None:
         def used_mins(m):
             return sum(1 for o in m.walk() if isinstance(o, affine.MinOp) and any(True for _ in o.results[0].uses))
+        flags["existing_in_loop"] = existing_dim_in_loop(op)
         flags["min_replaced"] = used_mins(mod_after) < used_mins(mod_before)
         flags["existing_moved"] = use_before_def(find_func(mod_after)) and not use_before_def(find_func(mod_before))
     return flags
@@ -538,12 +546,30 @@ class GenCanon:
             c = r.choice([1, 1, 1, 2, 2, 3, 3, 4, 5])
             if self.special == "step0" and r.random() < 0.5:
                 c = r.choice([0, -1])
+        if self.special == "odd" and r.random() < 0.35 and c >= 0:
+            # a bound that is the result of an op, not of an arith.constant (extract_cst_index: second `return None`)
+            v = self.fresh("b")
+            x = r.randint(0, c)
+            out.append(f"{ind}{v} = arith.addi %c{x}, %c{c - x} : index")
+            return v
         if r.random() < 0.2:
             return self.const(ind, c, out)
         return f"%c{c}" if c >= 0 else f"%cm{-c}"
 
+    def loop_i32(self, ind):
+        """a loop over i32 (constant bounds of a non-index type: extract_cst_index's third `return None`)"""
+        r = self.r
+        l, u, st, iv = self.fresh("l"), self.fresh("u"), self.fresh("s"), self.fresh("i")
+        out = [f"{ind}{l} = arith.constant 0 : i32", f"{ind}{u} = arith.constant {r.randint(0, 9)} : i32",
+               f"{ind}{st} = arith.constant {r.choice([1, 2, 3])} : i32",
+               f"{ind}scf.for {iv} = {l} to {u} step {st} : i32 {{",
+               f'{ind}  "test.op"({iv}) {{tag = "{self.tag()}"}} : (i32) -> ()', f"{ind}}}"]
+        return out
+
     def loop(self, depth, ind, vals):
         r = self.r
+        if self.special == "odd" and r.random() < 0.25:
+            return self.loop_i32(ind)
         out = []
         lb, ub, st = (self.bound(ind, out, w) for w in ("lb", "ub", "st"))
         iv = self.fresh("i")
@@ -1021,7 +1047,7 @@ class C17(Prop):
                     g = GenReuse(r, multi_bias=0.5)
                     yield {"kind": "reuse-multidim", "pass": REUSE, "src": g.prog(), "envs": g.envs()}
             else:
-                sp = r.choice(["neg", "step0", "iter", "badmin"])
+                sp = r.choice(["neg", "step0", "iter", "badmin", "odd"])
                 if sp == "badmin":
                     g = GenReuse(r, minfirst_nonconst=True)
                     yield {"kind": "reuse-badmin", "pass": REUSE, "src": g.prog(), "envs": g.envs()}
@@ -1107,7 +1133,7 @@ class C17(Prop):
                     # parsed back. Accepted only when the clause check on the real IR before the step says so.
                     if name == "MoveMemrefDims" and type(e).__name__ == "ParseError" and existing_dim_in_loop(op):
                         st["after"] = "unparsable"
-                        st["flags"] = {"existing_moved": True, "min_replaced": False}
+                        st["flags"] = {"existing_moved": True, "min_replaced": False, "existing_in_loop": True}
                         out["steps"].append(st)
                         out["truncated"] = True
                         break
@@ -1132,7 +1158,8 @@ class C17(Prop):
         reqs = []
         for s in impl_out["steps"]:
             reqs.append({"fn": "c17.step", "args": {"rule": s["rule"], "path": s["path"], "nargs": s["before"]["nargs"],
-                                                    "prog": s["before"]["prog"], "ceil": FIXED_F03}})
+                                                    "prog": s["before"]["prog"], "ceil": FIXED_F03,
+                                                    "negGuard": "FC17a" in PROPOSED, "keepDom": "FC17b" in PROPOSED}})
         sm = impl_out["src_model"]
         for env in case["envs"][:len(impl_out["traces0"])]:
             reqs.append({"fn": "c17.trace", "args": {"prog": sm["prog"], "env": [[i, jval(tuple(v) if isinstance(v, list) else v)]
@@ -1177,7 +1204,14 @@ class C17(Prop):
             return f"model error: {model_out}"
         if not impl_out["chain_ok"]:
             return "logged rewrite steps do not chain up to the pass output"
+        broken = False
         for k, (a, b) in enumerate(zip(impl_out["steps"], model_out["steps"])):
+            if broken:
+                # an earlier step of this run was a DC17b rewrite (real clause check AND model agree): the IR is no longer in SSA
+                # form, the model rules (which check SSA form on the way to the op) are not replayed on what follows
+                break
+            if a.get("flags", {}).get("existing_moved") and a["after"] == b["after"] and a["raised"] == b["raised"]:
+                broken = True
             if a["raised"] != b["raised"]:
                 return (f"step {k} ({a['pattern']} at {a['path']}): real code "
                         f"{'raised ' + a['raised'] if a['raised'] else 'rewrote'}, model {'-> ' + b['raised'] if b['raised'] else 'rewrote'}")
@@ -1188,6 +1222,9 @@ class C17(Prop):
                 fl = a.get("flags", {})
                 if a["rule"] == "merge" and (cl["perfect"] == fl.get("imperfect", False) or cl["nonneg"] == fl.get("negbounds", False)):
                     return f"step {k}: the model's clause evaluation {cl} differs from the clause check on the real IR {fl}"
+                if a["rule"] == "moveDim" and "existing_in_loop" in fl and cl["nonneg"] == fl["existing_in_loop"]:
+                    return (f"step {k}: the model's evaluation of the clause NoExistingDimMove ({cl['nonneg']}) differs from the clause "
+                            f"check on the real IR (existing dim in a loop: {fl['existing_in_loop']})")
                 if a["rule"] == "changeStep" and not cl["positive"] and "invalid_input" not in impl_out:
                     return f"step {k}: non-positive step on an input considered valid"
         if "invalid_input" not in impl_out and impl_out["traces0"] != model_out["traces0"]:
